@@ -505,12 +505,18 @@ pub(crate) struct WritersHandle {
 }
 impl WritersHandle {
     fn set_new_spec(&self, new_spec: LogSpecification) -> Result<(), FlexiLoggerError> {
+        #[cfg(flexi_logger_verif)]
+        crate::verif_hooks::point("sc:sns_enter", None).ok();
         let max_level = new_spec.max_level();
         self.spec
             .write()
             .map_err(|_| FlexiLoggerError::Poison)?
             .update_from(new_spec);
+        #[cfg(flexi_logger_verif)]
+        crate::verif_hooks::point("sc:sns_updated", None).ok();
         self.reconfigure(max_level);
+        #[cfg(flexi_logger_verif)]
+        crate::verif_hooks::point("sc:sns_exit", None).ok();
         Ok(())
     }
 
